@@ -59,6 +59,44 @@ func rewritingPolicy(rng *rand.Rand, uni []gen.P) rig.Policy {
 	return rig.GenPolicy(rng, uni, rig.GenOpts{})
 }
 
+// aggregate gives a path the AS_SET of an aggregate route: 2-4 members in the order the aggregating router happened to
+// send them (RFC 4271 section 4.3: the set is unordered, so any order arrives, ascending only by chance), after the
+// sequence, or as the whole path of a locally aggregated iBGP route.
+func aggregate(rng *rand.Rand, a *rig.Attr) {
+	n := 2 + rng.IntN(3)
+	var m []uint32
+	for len(m) < n {
+		x := 64740 + uint32(rng.IntN(20))
+		dup := false
+		for _, y := range m {
+			dup = dup || x == y
+		}
+		if !dup {
+			m = append(m, x)
+		}
+	}
+	var segs []rig.Seg
+	for _, sg := range a.ASPath {
+		if !sg.Set {
+			segs = append(segs, sg)
+		}
+	}
+	a.ASPath = append(segs, rig.Seg{Set: true, ASNs: m})
+	if !a.AtomicAgg && rng.IntN(2) == 0 {
+		a.AtomicAgg = true
+	}
+}
+
+// unorderedSet: the path has an AS_SET whose members are not in ascending order.
+func unorderedSet(a rig.Attr) bool {
+	for _, sg := range a.ASPath {
+		if sg.Set && !sort.SliceIsSorted(sg.ASNs, func(i, j int) bool { return sg.ASNs[i] < sg.ASNs[j] }) {
+			return true
+		}
+	}
+	return false
+}
+
 func genHist(rng *rand.Rand, nops int) hist {
 	h := hist{V4: rng.IntN(3) != 0, Paths: map[uint32]rig.Attr{}, Ins: []int{0, 2, 3}}
 	h.Universe = gen.Universe(rng, h.V4, 6)
@@ -80,6 +118,9 @@ func genHist(rng *rand.Rand, nops int) hist {
 		case x < 40: // a neighbour announces (or re-announces) a prefix
 			in := rng.IntN(len(h.Ins))
 			a := rig.GenPath(rng, next, rig.Sources[h.Ins[in]], rig.PathOpts{Dedup: true, Unknown: true, RRAttrs: true})
+			if rng.IntN(4) == 0 {
+				aggregate(rng, &a)
+			}
 			h.Paths[next] = a
 			h.Ops = append(h.Ops, op{K: "in-add", In: in, Pfx: pi, ID: next})
 			inHas[[2]int{in, pi}] = next
@@ -98,6 +139,9 @@ func genHist(rng *rand.Rand, nops int) hist {
 				locHas[sp] = append(locHas[sp], next)
 			} else {
 				a := rig.GenPath(rng, next, rig.Sources[1], rig.PathOpts{Unknown: true})
+				if rng.IntN(4) == 0 {
+					aggregate(rng, &a)
+				}
 				a.Dedup = true
 				h.Paths[next] = a
 				h.Ops = append(h.Ops, op{K: "loc-add", Pfx: pi, ID: next})
@@ -135,6 +179,7 @@ func genHist(rng *rand.Rand, nops int) hist {
 
 type stats struct {
 	ops, snapshots, bytes, rewritingOps, exportOps int
+	unorderedSetPaths, exportOpsUnorderedSet       int // paths handed in with a non-ascending AS_SET; export-side operations while the Loc-RIB stored one
 	sawRewriteRefresh, sawShared, sawStatic        bool
 	byOp                                           map[string]int
 }
@@ -252,8 +297,20 @@ func runHist(h hist) (res result) {
 		st.byOp[o.K]++
 		after := snapAll()
 		exportOnly := o.K == "attach" || o.K == "replace" || o.K == "detach"
+		if (o.K == "in-add" || o.K == "loc-add") && unorderedSet(h.Paths[o.ID]) {
+			st.unorderedSetPaths++
+		}
 		if exportOnly {
 			st.exportOps++
+			stored := false
+			for _, as := range before[0].Attrs {
+				for _, x := range as {
+					stored = stored || unorderedSet(x)
+				}
+			}
+			if stored {
+				st.exportOpsUnorderedSet++
+			}
 			if outs[o.Out].Sess.Rewrites() || (o.Policy != nil && o.Policy.Modifies()) || h.Outs[o.Out].Policy.Modifies() {
 				st.rewritingOps++
 				if o.K == "replace" {
@@ -429,7 +486,7 @@ func polDesc(o op) string {
 
 func main() {
 	vf.Main("C13", "exploration", func(r *vf.Run) {
-		r.Rule("PRNG histories (50 operations) on one Loc-RIB with three Adj-RIB-Ins (eBGP, iBGP, RR client; accept-all import) and 2-4 Adj-RIB-Outs from {eBGP, eBGP RS client, iBGP, iBGP RR client} x {best only, add-path 2/4} with rewriting export chains (prepend, set next hop, set MED, generated chains), eBGP sessions sometimes with RFC 9234 roles: neighbours announce / withdraw, static routes and BGP paths with deduplicated attribute blocks are put into the Loc-RIB directly, Adj-RIB-Outs are registered late (initial dump), get their export chain replaced (refresh) and are unregistered. Deep snapshots of all tables before and after every operation. distinct_nontrivial = histories with a policy replacement on a rewriting session while the Loc-RIB held a path with a shared (deduplicated) attribute block and a static route")
+		r.Rule("PRNG histories (50 operations) on one Loc-RIB with three Adj-RIB-Ins (eBGP, iBGP, RR client; accept-all import) and 2-4 Adj-RIB-Outs from {eBGP, eBGP RS client, iBGP, iBGP RR client} x {best only, add-path 2/4} with rewriting export chains (prepend, set next hop, set MED, generated chains), eBGP sessions sometimes with RFC 9234 roles: neighbours announce / withdraw (one path in four is an aggregate: AS_SET of 2-4 members in arbitrary, mostly non-ascending order after the sequence, often with ATOMIC_AGGREGATE), static routes and BGP paths with deduplicated attribute blocks are put into the Loc-RIB directly, Adj-RIB-Outs are registered late (initial dump), get their export chain replaced (refresh) and are unregistered. Deep snapshots of all tables before and after every operation. distinct_nontrivial = histories with a policy replacement on a rewriting session while the Loc-RIB held a path with a shared (deduplicated) attribute block and a static route")
 		r.Assume("import chains accept everything (what the Loc-RIB stores is then the content handed to the Adj-RIB-In)", "nil and empty attribute containers are the same content")
 		_, replay := r.Replaying()
 		hg = rig.NewHangGuard(replay)
@@ -452,6 +509,8 @@ func main() {
 			r.Count("bytes_compared", st.bytes)
 			r.Count("export_side_operations", st.exportOps)
 			r.Count("rewriting_operations_between_snapshots", st.rewritingOps)
+			r.Count("paths_with_unordered_as_set", st.unorderedSetPaths)
+			r.Count("export_side_operations_with_unordered_as_set_stored", st.exportOpsUnorderedSet)
 			mu.Lock()
 			for k, v := range st.byOp {
 				byOp[k] += v
@@ -481,5 +540,7 @@ func main() {
 		r.Set("operations_by_kind", byOp)
 		r.Require("export_side_operations", 5000)
 		r.Require("rewriting_operations_between_snapshots", 2000)
+		r.Require("paths_with_unordered_as_set", 2000)
+		r.Require("export_side_operations_with_unordered_as_set_stored", 2000)
 	})
 }
